@@ -4,3 +4,4 @@ import Properties.C02
 #print axioms Hive.C02.updates
 #print axioms Hive.C02.reachable
 #print axioms Hive.C02.initial
+#print axioms Hive.C02.loaded_layout
